@@ -69,14 +69,13 @@ def evaluate(cpu, E, mapper, m, states, regs):
 
 
 def decode_all(dis, blobs):
+    """plain successive calls of the disassembler: whatever state a call leaves behind is part of the history"""
     out = []
     for b in blobs:
-        isa.reset_pending(dis)
         try:
             i = dis(b)
         except Exception:
             i = None
-        isa.reset_pending(dis)
         if i is not None:
             out.append(i)
     return out
@@ -105,6 +104,17 @@ def case(args):
             pick = lambda n: [c04.spec_bytes(rng, rng.choice(specs), e, ml) + bytes(rng.getrandbits(8) for _ in range(ml)) for _ in range(n)]
             bblobs = pick(rng.randrange(2, 7))
             hblobs = pick(rng.randrange(6, 25))
+            # undecodable input is part of a history too: random bytes, and (x86/x64) prefix bytes in front of them
+            for _ in range(rng.randrange(0, 6)):
+                g = bytes(rng.getrandbits(8) for _ in range(rng.randrange(1, ml + 1)))
+                if name in ("x86_x86", "x64_x64") and rng.random() < 0.7:
+                    g = bytes(rng.choice(c04.X86_PREFIXES) for _ in range(rng.choice([1, 1, 2]))) + rng.choice([b"\x06", b"\xd6", b"\x82", b"\xf1", b"\x27", g[:2]]) + g
+                hblobs.insert(rng.randrange(0, len(hblobs) + 1), g[:ml])
+            if name in ("x86_x86", "x64_x64") and rng.random() < 0.5:
+                # the history ends on a prefixed byte string that is not an instruction
+                hblobs.append(bytes([rng.choice(c04.X86_PREFIXES)]) + rng.choice([b"\x06", b"\xd6", b"\x82", b"\xf1", b"\x27"])[:1] + bytes(rng.getrandbits(8) for _ in range(3)))
+            elif rng.random() < 0.5:
+                hblobs.append(hblobs.pop(rng.randrange(len(hblobs))))      # the history may end on any of them
             states = []
             for _ in range(2):
                 regvals = []
@@ -132,13 +142,25 @@ def case(args):
             gprev = g1
             H = decode_all(dis, hblobs)
             hm = mapper()
-            for i in H:
+            derived = None
+            for hi, i in enumerate(H):
                 try:
-                    i(hm)
+                    # unrelated work on scratch maps, and work on maps derived from the earlier result (copies, compositions)
+                    if hi % 3 == 1:
+                        if derived is None or rng.random() < 0.3:
+                            derived = m0.use()
+                        i(derived)
+                    else:
+                        i(hm)
                     if rng.random() < 0.3:
                         evaluate(cpu, E, mapper, hm, states[:1], regs[:3])
+                    if rng.random() < 0.15:
+                        (m0 >> hm)
+                    if rng.random() < 0.1:
+                        (hm << m0)
                 except Exception:
                     hm = mapper()
+                    derived = None
                 g = global_flags(cpu, regs)
                 if g != gprev and culprit is None:
                     ch = sorted(kk for kk in g if g.get(kk) != gprev.get(kk))
@@ -167,7 +189,9 @@ def case(args):
                 what = "rebuilt-map"
             if what:
                 cause = culprit or first_self or ("?", [])
-                res["find"] = {"key": "%s|%s|%s" % (name, cause[0], ",".join(cause[1]) or "no-global-flag-change"),
+                switches = [c for c in cause[1] if c.startswith("internals.")]
+                key = "%s|%s" % (name, switches[0]) if switches else "%s|%s|%s" % (name, cause[0], ",".join(cause[1]) or "no-global-flag-change")
+                res["find"] = {"key": key,
                                "what": "%s: the %s of block [%s] evaluates differently after a history of %d instructions (first global write: %s by %s)" % (
                                    name, what.replace("-", " "), " ; ".join(sstr(i) for i in B0)[:120], len(H), cause[1], cause[0]),
                                "replay": {"isa": name, "mode": k, "seed": seed, "block": [b.hex() for b in bblobs], "history": [b.hex() for b in hblobs],
@@ -203,6 +227,12 @@ def check(run):
         for k in range(len(cpu.disassemble.specs)):
             for j in range(per):
                 tasks.append((name, k, run.seed * 1000003 + zlib.crc32(name.encode()) % 9973 + 31 * j + k))
+    # recorded failures run first (a case is determined by its module, mode and seed)
+    import glob
+    for cf in sorted(glob.glob(str(common.VERIF / "corpus" / "C10" / "*.json"))):
+        rep = json.load(open(cf)).get("replay", {})
+        if rep.get("isa") in cpus:
+            tasks.insert(0, (rep["isa"], rep["mode"], rep["seed"]))
     gc.collect()
     gc.freeze()
     with mp.get_context("fork").Pool(14, maxtasksperchild=1) as pool:
